@@ -286,11 +286,11 @@ func (c *simConn) SetReadDeadline(t time.Time) error {
 	c.in.signal()
 	return nil
 }
-func (c *simConn) SetWriteDeadline(time.Time) error    { return nil }
-func (c *simConn) ReceiveControlMsg(ControlMsg) error  { return nil }
-func (c *simConn) SendControlMsg(ControlMsg) error     { return nil }
-func (c *simConn) SetRecvTimeout(time.Duration)        {}
-func (c *simConn) SetSendTimeout(time.Duration)        {}
+func (c *simConn) SetWriteDeadline(time.Time) error   { return nil }
+func (c *simConn) ReceiveControlMsg(ControlMsg) error { return nil }
+func (c *simConn) SendControlMsg(ControlMsg) error    { return nil }
+func (c *simConn) SetRecvTimeout(time.Duration)       {}
+func (c *simConn) SetSendTimeout(time.Duration)       {}
 
 var _ ProxyConn = (*simConn)(nil)
 
@@ -363,7 +363,9 @@ func waitParties(ps ...*party) {
 	}
 }
 
-func splitDone(m *Machine) bool { return m != nil && m.sendCipher.cipher != nil && m.recvCipher.cipher != nil }
+func splitDone(m *Machine) bool {
+	return m != nil && m.sendCipher.cipher != nil && m.recvCipher.cipher != nil
+}
 
 func describeErr(err error) string {
 	if err == nil {
